@@ -50,6 +50,11 @@ pub struct Call {
     /// their own single-call references.
     #[serde(default)]
     pub nest: Option<(usize, Cfg)>,
+    /// `Source`-taking operations only: the call builds a `Source` of its own and drops it when it
+    /// returns (an editor that opens, formats and closes documents), instead of using the run's
+    /// shared one: the next such call on the thread is likely to get the same addresses
+    #[serde(default)]
+    pub own_source: bool,
 }
 
 #[derive(Serialize, Deserialize, Clone, Debug, PartialEq, Eq)]
